@@ -34,15 +34,37 @@ def rdoc(rng, depth=0):
     return OrderedDict((rtext(rng, rng.randrange(0, 7)), rdoc(rng, depth + 1)) for _ in range(rng.randrange(0, 5)))
 
 
+class PrettyTimeout(BaseException):
+    pass
+
+
 def real_pretty(text, w=None):
+    """the real prettyPrint, under a time limit (it is a regular-expression pass: it must come back at once)"""
+    import signal
     from pel.peltool import peltool
     fn = getattr(peltool, "_verif_orig_pretty", peltool.prettyPrint)
-    return fn(text) if w is None else fn(text, w)
+
+    def on_alarm(signum, frame):
+        raise PrettyTimeout()
+    old = signal.signal(signal.SIGALRM, on_alarm)
+    signal.setitimer(signal.ITIMER_REAL, 10.0)
+    try:
+        return fn(text) if w is None else fn(text, w)
+    except PrettyTimeout:
+        return None
+    finally:
+        signal.setitimer(signal.ITIMER_REAL, 0)
+        signal.signal(signal.SIGALRM, old)
 
 
 def check_text(run, model, text, w, tag, doc=None):
     run.evaluations += 1
     got = real_pretty(text, w)
+    if got is None:
+        if sum(1 for v in run.violations if v["key"] == "pretty:hang") < 2:
+            run.violation("pretty:hang", "prettyPrint does not come back within 10 s on a text of %d characters" % len(text),
+                          dict(fn="prettyPrint", text=text, width=w, kind="S"))
+        return
     exp = model.call("pretty", (w if w is not None else 34).to_bytes(2, "big"), text)
     run.count(tag)
     if '":' in text:
@@ -83,6 +105,8 @@ def run(run, model, proof):
             except Exception:
                 doc = None
             check_text(run, model, r["text"], r.get("width"), "corpus", doc=doc)
+    for doc in ([("\u00e9\u4e2d" * 30)], {"k": ["\u00fc" * 64, "\\" * 40]}, ["\"" * 50], {"a": {"b": ["\u2028" * 45]}}):
+        check_text(run, model, json.dumps(doc, indent=4), 34, "long-escapes", doc=doc)
     n = 60000 if thorough else 4000
     for i in range(n):
         doc = rdoc(rng)
@@ -264,6 +288,8 @@ def cli_dir(run, model, rng, nfiles, sub=False):
     import dirgen
     plugins = rng.random() < 0.6
     files = dirgen.gen_dir(model, rng, nfiles, plugins=plugins, junk=rng.randrange(0, 3))
+    if rng.random() < 0.3:
+        files.append(("m_unopenable_%d" % rng.randrange(1000), b"", dict(kind="unreadable", how=rng.choice(["dangling", "loop", "socket"]))))
     if rng.random() < 0.5:
         # a PEL whose document holds strings outside ASCII: accented and astral characters, a lone surrogate, control characters
         # (BMC JSON user data; json.loads of "\ud83d" is a lone surrogate, which only an ASCII-escaping printer can write out)
